@@ -2,6 +2,8 @@
 # usage: tools/tryseed.sh <patch.diff> <ID> [tier]  — run ./check <ID> against a patched private worktree (never /repo itself)
 P=$(readlink -f "$1"); ID="$2"; T=${3:-quick}
 R=${TRYDIR:-/tmp/w_me}
+# one user of the private copy at a time
+exec 9>/tmp/.tryseed.$(basename $R).lock; flock 9
 if [ ! -d $R ]; then /verif/tools/mkcopy.sh $R >/dev/null; fi
 rsync -a --exclude .git --exclude work --exclude replays --exclude repo --exclude .verif_repo --exclude harness/Cargo.toml --exclude harness/target --exclude lean/.lake /verif/ $R/
 git -C $R/repo checkout -q --detach $(git -C /repo rev-parse HEAD) 2>/dev/null; git -C $R/repo checkout -q -- .
